@@ -191,10 +191,11 @@ func enumerate(A []atom, thorough bool) []job {
 		seen[k] = true
 		jobs = append(jobs, job{ID: len(jobs), Mode: mode, Seq: append([]int{}, seq...)})
 	}
-	all := make([]int, len(A))
-	var merge []int
+	var all, merge []int
 	for i := range A {
-		all[i] = i
+		if thorough || A[i].Quick {
+			all = append(all, i)
+		}
 		if A[i].Merge {
 			merge = append(merge, i)
 		}
@@ -257,6 +258,15 @@ func main() {
 		}
 		byName[a.Name] = i
 	}
+	nq := 0
+	for _, a := range A {
+		if a.Quick {
+			nq++
+		}
+	}
+	if nq != len(quickAtoms) {
+		ev.Unbound(fmt.Sprintf("quick alphabet names %d atoms, %d exist", len(quickAtoms), nq))
+	}
 	scratch = fmt.Sprintf("/dev/shm/verif.c04.%d", os.Getpid())
 	os.MkdirAll(scratch, 0o755)
 	defer os.RemoveAll(scratch)
@@ -292,7 +302,7 @@ func main() {
 		if o.Crash != nil {
 			fmt.Printf("CRASH %s @ %s (%s)\n%s\n", o.Crash.Kind, o.Crash.Site, o.Crash.Exit, o.Crash.Trace)
 		} else {
-			fmt.Printf("%s\nfindings=%v\n", o.Res.Outcome, o.Res.Findings)
+			fmt.Printf("%s\nfindings=%v resp_err=%v recovered=%v\n", o.Res.Outcome, o.Res.Findings, o.Res.RespErr, o.Res.Recovered)
 		}
 		os.RemoveAll(scratch)
 		return
